@@ -344,6 +344,9 @@ fn run_cases(ctx: &mut Ctx, cases: Vec<Case>) {
                         Ok(o) => {
                             ctx.case(&line, nontrivial(&case));
                             ctx.class(&format!("pos:{:?}", case.pos));
+                            if case.combo.as_ref().map_or(false, |k| k.0.contains("((")) {
+                                ctx.class("combo:parenthesised-element-set");
+                            }
                             if case.combo.as_ref().map_or(false, |k| k.0.contains("Wide") || k.0.contains("Mid")) {
                                 ctx.class("combo:contained-subtype-operand");
                             }
@@ -412,8 +415,14 @@ fn combo_case(src: &mut Src, bs: &[i128]) -> Case {
             cur = if union { cur.union(s) } else { cur.intersect(s) };
         }
         let e = src.chance(20);
-        let strs: Vec<String> = parts.iter().map(|(t, _)| t.clone()).collect();
-        text.push_str(&format!("({}{})", strs.join(if union { " | " } else { " ^ " }), if e { ", ..." } else { "" }));
+        // an element may be written in parentheses, and so may the whole element set
+        // (X.680 50.5: Elements ::= ... | "(" ElementSetSpec ")"): the meaning stays the same
+        let wrap_all = n == 1 && src.chance(25);
+        let strs: Vec<String> = parts.iter().map(|(t, _)| if !wrap_all && src.chance(10) && !t.starts_with("INCLUDES") { format!("({t})") } else { t.clone() }).collect();
+        // (a parenthesised set of several operands, `((a | b), ...)`, is a syntax error for the pinned lexer: reported, so outside this check)
+        let joined = strs.join(if union { " | " } else { " ^ " });
+        let joined = if wrap_all { format!("({joined})") } else { joined };
+        text.push_str(&format!("({joined}{})", if e { ", ..." } else { "" }));
         set = set.intersect(&cur);
         if !e {
             cap = cap.intersect(&cur);
